@@ -326,6 +326,9 @@ func (w *World) blocked(fn *ssa.Function) bool {
 	if unblocked[fn.String()] {
 		return false
 	}
+	if w.intrinsics[fn.String()] != nil {
+		return false
+	}
 	p := fn.Pkg.Pkg.Path()
 	switch {
 	case p == "reflect", p == "runtime", p == "syscall", p == "os", p == "unsafe",
